@@ -153,6 +153,15 @@ def seg_unit(v, seg, res, tier):
             if tables.is_base(v, dt) and dt in MAXLEN and not (v == '2.6' and dt == 'ST'):
                 long_ = ('1' if dt in ('NM', 'SI') else 'y') * (MAXLEN[dt] + 1)
                 run(segtext({idx: [rep_of(long_)]}), 'leaf-overlong', must_reject='overlong-%s-value' % dt)
+    # one repetition more than the table allows, for every field with a bounded maximum (1, 2, 3, 10 ... occur)
+    for idx, fr in rows:
+        mx = fr.card[1]
+        if mx in (-1, 0) or mx > 12 or (seg == 'MSH' and idx <= 2):
+            continue
+        one = c01.field_all_leaves(v, fr)
+        run(segtext({idx: [one] * (mx + 1)}), 'repetitions-beyond-max', must_reject='cardinality-overflow-max-%d' % mx)
+        if mx > 1:
+            run(segtext({idx: [one] * mx}), 'repetitions-at-max')
     allf = {idx: [c01.field_all_leaves(v, fr)] for idx, fr in rows}
     run(segtext(allf), 'all-leaves')
     if seg != 'MSH':
